@@ -123,6 +123,17 @@ def model_check(res, tier):
         futs = [ex.submit(tlc_check, "MC_Render.tla", cfg, 1, 600, w, "c17w_" + w) for w, cfg in jobs]
         for f in futs:
             f.result()
+    # the order in which the rings of new resources are drained (PickUpOrder.tla): dependents before what they read
+    pu = "SPECIFICATION Spec\nCONSTANTS\n  Order <- %s\n  Edges <- EdgesCode\n  NPairs = %d\n  MaxCb = %d\nINVARIANT %s\nCHECK_DEADLOCK FALSE\n"
+    np_, mcb = (2, 2) if tier == "quick" else (3, 3)
+    st = tlc_check("MC_PickUpOrder.tla", write_cfg("PickUpOrder.cfg", pu % ("OrderCode", np_, mcb, "DependenciesComplete")), workers=4, timeout=1500, tag="c17pu")
+    if st["violated"]:
+        res.drift.append({"model": "PickUpOrder", "violated": st["violated"]})
+    res.add_mc("PickUpOrder pairs=%d callbacks<=%d" % (np_, mcb), st)
+    tlc_check("MC_PickUpOrder.tla", write_cfg("PickUpOrder_rev.cfg", pu % ("OrderReversed", 2, 2, "DependenciesComplete")), workers=2, timeout=600,
+              expect_violation="DependenciesComplete", tag="c17puw")
+    tlc_check("MC_PickUpOrder.tla", write_cfg("PickUpOrder_w.cfg", pu % ("OrderCode", 2, 2, "W_BuiltDuringDrains")), workers=2, timeout=600,
+              expect_violation="W_BuiltDuringDrains", tag="c17puw")
 
 
 def generate(*a, **kw):
@@ -380,6 +391,9 @@ def run(tier):
     tscen, selfs = gen_tlc(res, tier)
     tick("behaviour generation")
     scen = tscen + gen_random(tier, rng)
+    # something linked to a modulator, both created while the audio thread is between two drains of its rings (the schedules
+    # of PickUpOrder.tla: before the n-th drain of the callback)
+    scen += [{"mode": "pickup", "n": n, "dep": dep, "src": "directed-pickup", "steps": []} for dep in ("sound", "tsound", "clock") for n in range(1, 10)]
     fscen = gen_finding()
     listed = finding_listed()
     if listed:
